@@ -557,13 +557,21 @@ impl Epoch {
 
         let s = s_in.trim();
 
-        for (idx, char) in s.chars().enumerate() {
-            if !char.is_numeric() || idx == s.len() - 1 {
+        // NOTE: The indexes are byte indexes (the string may contain any unicode character), never character counts.
+        for (idx, char) in s.char_indices() {
+            // Byte index of the next character, i.e. the length of the string for the last character.
+            let next_idx = idx + char.len_utf8();
+            let is_last = next_idx == s.len();
+            if !char.is_numeric() || is_last {
                 if cur_token == Token::Timescale {
                     // Then we match the timescale directly.
-                    if idx != s.len() - 1 {
+                    if !is_last {
                         // We have some remaining characters, so let's parse those in the only formats we know.
-                        ts = TimeScale::from_str(s[idx..].trim()).with_context(|_| ParseSnafu {
+                        let ts_str = s.get(idx..).ok_or(HifitimeError::Parse {
+                            source: ParsingError::ISO8601,
+                            details: "parsing as Gregorian date with time scale",
+                        })?;
+                        ts = TimeScale::from_str(ts_str.trim()).with_context(|_| ParseSnafu {
                             details: "parsing as Gregorian date with time scale",
                         })?;
                     }
@@ -571,14 +579,22 @@ impl Epoch {
                 }
                 let prev_token = cur_token;
 
-                let pos = cur_token.gregorian_position().unwrap();
+                let pos = match cur_token.gregorian_position() {
+                    Some(pos) => pos,
+                    None => {
+                        return Err(HifitimeError::Parse {
+                            source: ParsingError::ISO8601,
+                            details: "parsing as Gregorian",
+                        })
+                    }
+                };
 
-                let end_idx = if idx != s.len() - 1 || !char.is_numeric() {
+                let end_idx = if !is_last || !char.is_numeric() {
                     // Only advance the token if we aren't at the end of the string
                     cur_token.advance_with(char)?;
                     idx
                 } else {
-                    idx + 1
+                    next_idx
                 };
 
                 if prev_idx > end_idx {
@@ -588,18 +604,35 @@ impl Epoch {
                     });
                 }
 
-                match lexical_core::parse(s[prev_idx..end_idx].as_bytes()) {
+                let sub_str = s.get(prev_idx..end_idx).ok_or(HifitimeError::Parse {
+                    source: ParsingError::ISO8601,
+                    details: "parsing as Gregorian",
+                })?;
+
+                match lexical_core::parse(sub_str.as_bytes()) {
                     Ok(val) => {
                         // Check that this valid is OK for the token we're reading it as.
                         prev_token.value_ok(val)?;
                         // If these are the subseconds, we must convert them to nanoseconds
                         if prev_token == Token::Subsecond {
-                            if end_idx - prev_idx != 9 {
-                                decomposed[pos] =
-                                    val * 10_i32.pow((9 - (end_idx - prev_idx)) as u32);
+                            let num_digits = end_idx - prev_idx;
+                            // Nanoseconds have at most nine digits, and must fit in the integer once scaled.
+                            let scaled = if num_digits <= 9 {
+                                10_i32
+                                    .checked_pow((9 - num_digits) as u32)
+                                    .and_then(|scale| val.checked_mul(scale))
                             } else {
-                                decomposed[pos] = val;
-                            }
+                                None
+                            };
+                            decomposed[pos] = match scaled {
+                                Some(nanos) => nanos,
+                                None => {
+                                    return Err(HifitimeError::Parse {
+                                        source: ParsingError::ValueError,
+                                        details: "invalid subseconds",
+                                    })
+                                }
+                            };
                         } else {
                             decomposed[pos] = val
                         }
@@ -611,10 +644,10 @@ impl Epoch {
                         })
                     }
                 }
-                prev_idx = idx + 1;
+                prev_idx = next_idx;
                 // If we are about to parse an hours offset, we need to set the sign now.
                 if cur_token == Token::OffsetHours {
-                    if &s[idx..idx + 1] == "-" {
+                    if char == '-' {
                         offset_sign = -1;
                     }
                     prev_idx += 1;
